@@ -1144,6 +1144,7 @@ DLLIMPORT int cfg_opt_setmulti(cfg_t *cfg, cfg_opt_t *opt, unsigned int nvalues,
 	}
 
 	old = *opt;
+	old.comment = NULL;	/* the annotation stays with opt */
 	opt->nvalues = 0;
 	opt->values = NULL;
 
@@ -1152,7 +1153,10 @@ DLLIMPORT int cfg_opt_setmulti(cfg_t *cfg, cfg_opt_t *opt, unsigned int nvalues,
 			continue;
 
 		/* ouch, revert */
+		old.comment = opt->comment;
+		opt->comment = NULL;
 		cfg_free_value(opt);
+		opt->comment = old.comment;
 		opt->nvalues = old.nvalues;
 		opt->values = old.values;
 		opt->flags &= ~(CFGF_RESET | CFGF_MODIFIED);
